@@ -111,14 +111,15 @@ Definition modes_args (ch : schan) : list str :=
   (PLUS :: letters) :: flat_map (fun f => match mode_value ch f with Some a => [a] | None => [] end) letters.
 (* what the bot receives when it joins: JOIN, topic, NAMES, then the replies to
    the MODE / MODE +b / WHO queries that Irc.doJoin sends *)
-Definition burst (s : srv) (me : suser) (c : str) (ch : schan) (mp uh : bool) : list msg :=
-  [Msg (hostmask me) str_JOIN [c]]
-  ++ (match sc_topic ch with [] => [] | t => [Msg SERVER str_332 [s_me s; c; t]] end)
+Definition burst_rest (s : srv) (me : suser) (c : str) (ch : schan) (mp uh : bool) : list msg :=
+  (match sc_topic ch with [] => [] | t => [Msg SERVER str_332 [s_me s; c; t]] end)
   ++ [msg_names s c ch mp uh; msg_endnames s c]
   ++ [Msg SERVER str_324 (s_me s :: c :: modes_args ch);
       Msg SERVER str_329 [s_me s; c; py_str_Z (Z.of_N (sc_created ch))]]
   ++ map (fun b => Msg SERVER str_367 [s_me s; c; b; SERVER; [49]]) (sc_bans ch)
   ++ msgs_who s c ch.
+Definition burst (s : srv) (me : suser) (c : str) (ch : schan) (mp uh : bool) : list msg :=
+  Msg (hostmask me) str_JOIN [c] :: burst_rest s me c ch mp uh.
 
 (* ---- validity of names ---- *)
 Definition valid_name (n : str) : bool :=
@@ -158,15 +159,15 @@ Definition join_other (n : str) (acc : srv * list str) (c : str) : srv * list st
 Definition part_any (n : str) (acc : srv * list str) (c : str) : srv * list str :=
   let '(s, vis) := acc in
   let '(s', j) := part_chan n c s in (s', if j && mych s c then vis ++ [c] else vis).
-(* the observer's own JOIN: channel by channel, each with its burst *)
-Definition join_self (mp uh : bool) (u : suser) (acc : srv * list msg) (c : str) : srv * list msg :=
-  let '(s, ms) := acc in
-  let '(s', j) := join_chan (s_me s) c s in
-  if j then match idict_get c (s_chans s') with
-            | Some ch => (s', ms ++ burst s' u c ch mp uh)
-            | None => (s', ms)
-            end
-  else (s', ms).
+(* the observer's own JOIN: the channels it actually enters; it hears ONE (possibly multi-target) JOIN, then the
+   burst of each channel *)
+Definition join_mine (acc : srv * list str) (c : str) : srv * list str :=
+  let '(s, joined) := acc in
+  let '(s', j) := join_chan (s_me s) c s in (s', if j then joined ++ [c] else joined).
+Definition bursts (s : srv) (u : suser) (mp uh : bool) (joined : list str) : list msg :=
+  flat_map (fun c => match idict_get c (s_chans s) with
+                     | Some ch => burst_rest s u c ch mp uh
+                     | None => [] end) joined.
 
 Definition set_o (b : bool) (f : flags) := Flags b (f_h f) (f_v f).
 Definition set_h (b : bool) (f : flags) := Flags (f_o f) b (f_v f).
@@ -224,7 +225,12 @@ Definition step (nick0 : str) (mp uh : bool) (s : srv) (a : action) : srv * list
       match idict_get n (s_users s) with
       | None => (s, [])
       | Some u =>
-          if feq n (s_me s) then fold_left (join_self mp uh u) chans (s, [])
+          if feq n (s_me s) then
+            let '(s', joined) := fold_left join_mine chans (s, []) in
+            match joined with
+            | [] => (s', [])
+            | _ => (s', Msg (hostmask u) str_JOIN [join [COMMA] joined] :: bursts s' u mp uh joined)
+            end
           else
             let '(s', vis) := fold_left (join_other n) chans (s, []) in
             match vis with
